@@ -243,7 +243,7 @@ def _df_fillna(df, method = None, axis = 0, limit = None):
                 else:
                     res = res.iloc[:0]
             elif m == 'nona':
-                res = res[nonan.values]
+                res = res[nonan.values.astype(bool)] ## an empty frame reduces to a float mask, which would select columns
         else:
             if is_num(limit) and limit<0:
                 params = dict(limit=abs(limit)) if is_series(df) else dict(axis=axis, limit=abs(limit))
@@ -325,7 +325,7 @@ def _nona(df, value = np.nan, edge = None):
         mask = df == value
     while len(mask.shape) > 1:
         mask = mask.min(axis = 1)
-    res = df[~mask]
+    res = df[~mask.astype(bool)] ## an empty frame reduces to a float mask, which would select columns
     if edge is None or len(res) == 0 or not is_pd(df):
         return res
     elif edge == 1: ## cut only latest values
